@@ -1138,3 +1138,6 @@ def check(ctx):
     r11_no_import_processing_without_docs(ctx)
     r12_router_errors_are_not_assumed_away(ctx)
     r13_every_module_entered_is_on_the_history(ctx)
+
+
+CLAUSE += '; the panic sites of the dependency-cycle detector are the reviewed ones'
